@@ -18,11 +18,13 @@ from common import Ctx
 PROPERTY = "C03"
 LEAN_MODULES = ["Proofs.C03.Deribit"]
 DRIVERS = ["driver_deribit"]
-RULE = ("[deribit] sequences of 1-10 operations on one frozen book with bids <= mark <= asks; buckets = (operation, amount class incl. zero / negative / "
+RULE = ("[deribit] sequences of 1-10 operations on one frozen book with bids <= mark <= asks (25 % of the sides as unsorted rows with repeated "
+        "prices; 35 % of the books with an ask exactly on multiple x mark and a bid exactly on mark / multiple, bought / sold with that multiple "
+        "and amounts reaching into the tie level); buckets = (operation, amount class incl. zero / negative / "
         "exact holding / holding+1 / x10 / whole wallet / whole cash, pricing mode, outcome, open or closed bar)")
 TRUSTED = ["float arithmetic of order-book sizes reproduced with Lean Float in the driver; value theorems are stated for exact arithmetic (DCtx.exact)"]
 ASSUMPTIONS = ["order-book data constrained so bids <= mark <= asks (property text) with prices >= 0.0005, so the 1e-6 rounding of mark in the valuation "
-               "is below the trade fee", "instrument names unique, levels distinct, sizes non-negative"]
+               "is below the trade fee", "instrument names unique, sizes non-negative"]
 
 DUST = Fraction(1, 100000)
 TOL = Fraction(1, 10 ** 25)
@@ -64,12 +66,12 @@ def gen_spec(rng):
     token = "ETH" if rng.random() < 0.8 else "BTC"
     is_open = rng.random() < 0.8
     now = 60 * rng.randint(1, 200) + (0 if is_open else rng.randint(1, 59))
-    instrs = L.gen_book(rng, token, now, crossed=False)
+    instrs = L.gen_book(rng, token, now, crossed=False, rough=0.25, tie=0.35)
     cash = Decimal(rng.choice(("1000", "1000", "50", "1", "0.01", "0")))
     wallet = Decimal(rng.choice(("5", "0.75", "120", "0")))
     positions, held = [], {}
     for i in instrs:
-        if rng.random() < 0.6:
+        if rng.random() < (0.85 if "tie" in i else 0.6):
             a = Decimal(rng.randint(1, 300)) if token == "ETH" else Decimal(rng.randint(1, 3000)) / 10
             positions.append({"name": i["name"], "expiry": i["expiry"], "strike": i["strike"], "kind": i["kind"], "amount": str(a),
                               "avgBuy": "0.03", "buyAmt": str(a), "avgSell": "0", "sellAmt": "0"})
@@ -90,7 +92,7 @@ def run_sequence(ctx: Ctx, spec, reqs):
         # a later minute of the same hour: same book, market closed for trading
         from demeter.deribit import DeribitMarketStatus
         data = rig.market.market_status.data
-        rig.market.set_market_status(DeribitMarketStatus(timestamp=L.ts_of(spec["now"]), data=data), price=rig.market._price_status)
+        rig.market.set_market_status(DeribitMarketStatus(timestamp=L.ts_of(spec["now"]), data=data), price=L.market_prices(rig.market))
         rig.market.is_open = False
     rep = {"spec": spec}
     bar = "open" if spec["open"] else "closed"
@@ -144,7 +146,16 @@ def directed():
             "delta": 0.52071, "gamma": 0.00342, "asks": [[0.029, 605], [0.0295, 197]], "bids": [[0.028, 51], [0.0275, 585]]}]
     mk = lambda now, open_, ops: {"instrs": ins, "now": now, "token": "ETH", "wallet": "1", "cash": "1", "positions": [], "open": open_,  # noqa: E731
                                    "ops": [(o, "directed") for o in ops]}
+    tie = [dict(ins[0], mark=0.03125, asks=[[0.05, 3], [0.0625, 5], [0.07, 9]], bids=[[0.03, 3], [0.015625, 5], [0.01, 2]])]
+    pos = [{"name": ins[0]["name"], "expiry": 30000, "strike": 1650, "kind": "CALL", "amount": "10", "avgBuy": "0.03", "buyAmt": "10", "avgSell": "0",
+            "sellAmt": "0"}]
+    n = ins[0]["name"]
+    mkt = lambda ops: {"instrs": tie, "now": 360, "token": "ETH", "wallet": "1", "cash": "5", "positions": pos, "open": True,  # noqa: E731
+                       "ops": [(o, "directed-cap-tie") for o in ops]}
     return [
+        # 2 x 0.03125 = 0.0625 and 0.03125 / 2 = 0.015625 exactly: one level of each side sits on the cap
+        mkt([{"type": "buy", "name": n, "amount": 6, "mult": 2}, {"type": "sell", "name": n, "amount": 6, "mult": 2}]),
+        mkt([{"type": "sell", "name": n, "amount": 7, "mult": Decimal("2")}, {"type": "buy", "name": n, "amount": 4, "mult": 2.0}]),
         mk(360, True, [{"type": "deposit", "amount": -5}]),
         mk(360, True, [{"type": "withdraw", "amount": -5}]),
         mk(395, False, [{"type": "withdraw", "amount": Decimal("0.5")}]),
